@@ -1,7 +1,7 @@
 (* Property C18 — JWK public projection, thumbprint and key-type coherence never leak keys.
    Pinned statements only. *)
-From Coq Require Import List ZArith Bool.
-From IdV Require Import Jose.Jwk Proofs.JwkProofs.
+From Coq Require Import List ZArith NArith Bool.
+From IdV Require Import Lib.Sha256 Jose.Jwk Proofs.JwkProofs Jose.Thumbprint Proofs.ThumbprintProofs.
 Import ListNotations.
 Open Scope Z_scope.
 
@@ -86,3 +86,15 @@ Print Assumptions C18_from_foreign_total.
 Theorem C18_from_foreign_pinned_panics : exists f, jwk_from_foreign true f = CvPanic.
 Proof. exact from_foreign_pinned_panics. Qed.
 Print Assumptions C18_from_foreign_pinned_panics.
+
+(* byte level (Jose/Thumbprint.v, Lib/Sha256.v: SHA-256 itself is modelled and compared with the implementation's output on every case):
+   the thumbprint text, and with it the 32-byte digest and its base64url form, depend on nothing but the declared key type, the parameter
+   family and the VALUES of the required members - for every lookup function, i.e. whatever else the key carries and in whatever order *)
+Theorem C18_thumbprint_bytes_required_only : forall kty family (get get' : list N -> list N),
+  (forall n, In n (thumb_names family) -> n <> n_kty -> get n = get' n) ->
+  thumb_text kty family get = thumb_text kty family get' /\ thumbprint_b64 kty family get = thumbprint_b64 kty family get'.
+Proof. exact (fun kty family get get' H => conj (thumb_text_required_only kty family get get' H) (thumbprint_required_only_bytes kty family get get' H)). Qed.
+Theorem C18_sha256_is_32_bytes : forall msg, length (sha256 msg) = 32%nat /\ Forall (fun b => (b < 256)%N) (sha256 msg).
+Proof. exact (fun msg => conj (sha256_length msg) (sha256_bytes msg)). Qed.
+Print Assumptions C18_thumbprint_bytes_required_only.
+Print Assumptions C18_sha256_is_32_bytes.
